@@ -2,10 +2,12 @@
 from ..mir import agg_field, Callee, Resolver, fmt, literals, walk, strip_sites as s
 from ..effects import assigns, mut_calls
 from . import prune
+from . import helpers
 from .prune import is_call
 
 LEVEL = 'other'
 RULES = {
+    'C13.R10': helpers.RULE_TEXT,
     'C13.R1': 'every TraversalMut::new builds its initial frontier from the `root` parameter',
     'C13.R2': 'frontier discipline vs child order: LIFO frontiers enqueue children in reverse label order, FIFO frontiers in forward order',
     'C13.R3': 'n_remaining is the number of siblings enqueued after the node in visiting order (enumerate index over the reversed sequence, or count-1-index over the forward one)',
@@ -32,7 +34,7 @@ WRAPPERS = {
     'AffTree::terminals': ('Iterator::map(Tree::terminals(self.tree), closure {closure#0}[])', ['$1.value'], 'the values of the arena tree\'s terminals'),
     'AffTree::decisions': ('Iterator::map(Tree::decisions(self.tree), closure {closure#0}[])', ['$1.value'], 'the values of the arena tree\'s decisions'),
 }
-FLOORS = {'C13.R1': 3, 'C13.R2': 3, 'C13.R3': 2, 'C13.R4': 9, 'C13.R5': 6, 'C13.R6': 10, 'C13.R7': 6, 'C13.R8': 3, 'C13.R9': 1}
+FLOORS = {'C13.R10': 19, 'C13.R1': 3, 'C13.R2': 3, 'C13.R3': 2, 'C13.R4': 9, 'C13.R5': 6, 'C13.R6': 10, 'C13.R7': 6, 'C13.R8': 3, 'C13.R9': 1}
 EXPLANATION = 'Sibling agreement between the three traversals and pairing/ordering rules on their bookkeeping.'
 DOES_NOT_DECIDE = 'exact visiting sequences as a whole (decided through their local rules only), depth()/depth_stats aggregation, numeric tightness of size_hint'
 LIFO_POP = {'Vec::pop'}
@@ -65,6 +67,7 @@ def has_call(e, *names):
 
 
 def run(ctx):
+    helpers.run_for(ctx)
     prune.check_wrappers(ctx, 'C13.R6', WRAPPERS)
     F = ctx.facts
     imp = impls(F)
